@@ -81,8 +81,18 @@ let read_dump cl (r : cursor) : dump =
 
 (* ---------- ops ---------- *)
 (* parsed op: the model-side op (needs current dimensions for setters), plus bookkeeping *)
+type rsrc =
+  | RNone                                  (* the call does not set rewards: they must stay as they were *)
+  | RZero                                  (* (s,a,discount) constructor *)
+  | RMat of q list list                    (* setRewardFunction((Sparse)Matrix2D) *)
+  | RTab of q list list list * xq list list list option
+      (* naive [s][a][s1] reward table, taken under the object's own (dumped) transitions (None) or
+         under the supplied [s][a][s1] transitions of a copy constructor's source (Some t) *)
+  | RConv                                  (* round trip through the other representation *)
+
 type pop_info = {
   opname : string;
+  rsrc : rsrc;
   mop : op option;            (* MDP-level op (ctor or setter), if any *)
   pop : pop option;           (* POMDP-level op *)
   ill : bool;
@@ -94,16 +104,16 @@ type pop_info = {
 let dims_of (st_m : model option) = match st_m with
   | Some m -> (int_of_nat m.mS, int_of_nat m.mA) | None -> (0, 0)
 
-let read_base_ctor cl (c : cursor) (k : string) : op * bool * (string * xq list list list) list * xq =
+let read_base_ctor cl (c : cursor) (k : string) : op * bool * (string * xq list list list) list * xq * rsrc =
   let s = next_int c in let a = next_int c in let d = next_xq c in
-  if k = "ctor3" then (Ctor3 (nat_of_int s, nat_of_int a, d), false, [], d)
+  if k = "ctor3" then (Ctor3 (nat_of_int s, nat_of_int a, d), false, [], d, RZero)
   else begin
     let t = reshape3 s a s (next_list c next_xq) in
     let r = reshape3 s a s (next_list c next_q) in
     let ill = tab_ill ~sparse:cl.sparse t
               || (cl.sparse && List.exists (List.exists (List.exists (fun x -> entry_ill (XFin x)))) r) in
-    if k = "ctort" then (CtorTables (nat_of_int s, nat_of_int a, t, r, d), ill, [("t", t)], d)
-    else (CtorCopy { gS = nat_of_int s; gA = nat_of_int a; gD = d; gT = t; gR = r }, ill, [("copy", t)], d)
+    if k = "ctort" then (CtorTables (nat_of_int s, nat_of_int a, t, r, d), ill, [("t", t)], d, RTab (r, None))
+    else (CtorCopy { gS = nat_of_int s; gA = nat_of_int a; gD = d; gT = t; gR = r }, ill, [("copy", t)], d, RTab (r, Some t))
   end
 
 let read_op cl (c : cursor) (st_m : model option) (st_o : int) : pop_info =
@@ -112,37 +122,37 @@ let read_op cl (c : cursor) (st_m : model option) (st_o : int) : pop_info =
   let have = st_m <> None in
   let flat_x () = next_list c next_xq in
   let sh3 n1 n2 n3 f = if have then reshape3 n1 n2 n3 f else [] in
-  let mk opname mop pop ill site tables disc = { opname; mop; pop; ill; site; tables; disc } in
+  let mk ?(rsrc = RNone) opname mop pop ill site tables disc = { opname; rsrc; mop; pop; ill; site; tables; disc } in
   let lift (o : op) = if cl.pomdp then (None, Some (PBase o)) else (Some o, None) in
   match k with
   | "ctor3" | "ctort" | "ctorc" ->
-    let (o, ill, tabs, d) = read_base_ctor cl c k in
+    let (o, ill, tabs, d, rs) = read_base_ctor cl c k in
     let site = cl.name ^ "::" ^ (match k with "ctor3" -> "Model(s,a,discount)" | "ctort" -> "Model(s,a,t,r,d)" | _ -> "Model(const_M&)") in
-    mk k (Some o) None ill site tabs (Some d)
+    mk ~rsrc:rs k (Some o) None ill site tabs (Some d)
   | "pctor" | "pctorob" ->
     let no = next_int c in
     let obflat = if k = "pctorob" then flat_x () else [] in
     let bk = next c in
-    let (o, ill, tabs, d) = read_base_ctor cl c bk in
+    let (o, ill, tabs, d, rs) = read_base_ctor cl c bk in
     let (bs, ba) = (match o with
         | Ctor3 (s, a, _) | CtorTables (s, a, _, _, _) -> (int_of_nat s, int_of_nat a)
         | CtorCopy g -> (int_of_nat g.gS, int_of_nat g.gA) | _ -> (0, 0)) in
     let site = cl.name ^ "::Model(o," ^ (if k = "pctorob" then "of," else "") ^ bk ^ ")" in
-    if k = "pctor" then mk (k ^ "+" ^ bk) None (Some (PCtor (nat_of_int no, o))) ill site tabs (Some d)
+    if k = "pctor" then mk ~rsrc:rs (k ^ "+" ^ bk) None (Some (PCtor (nat_of_int no, o))) ill site tabs (Some d)
     else begin
       let obf = reshape3 bs ba no obflat in
-      mk (k ^ "+" ^ bk) None (Some (PCtorOb (nat_of_int no, obf, o))) (ill || tab_ill ~sparse:cl.sparse obf) site (("t", obf) :: tabs) (Some d)
+      mk ~rsrc:rs (k ^ "+" ^ bk) None (Some (PCtorOb (nat_of_int no, obf, o))) (ill || tab_ill ~sparse:cl.sparse obf) site (("t", obf) :: tabs) (Some d)
     end
   | "pctorc" ->
     let no = next_int c in
     let obflat = flat_x () in
-    let (o, ill, tabs, d) = read_base_ctor cl c "ctorc" in
+    let (o, ill, tabs, d, rs) = read_base_ctor cl c "ctorc" in
     let g = (match o with CtorCopy g -> g | _ -> failwith "pctorc") in
     let obf = reshape3 (int_of_nat g.gS) (int_of_nat g.gA) no obflat in
-    mk k None (Some (PCtorCopy { gpM = g; gpO = nat_of_int no; gpOb = obf }))
+    mk ~rsrc:rs k None (Some (PCtorCopy { gpM = g; gpO = nat_of_int no; gpOb = obf }))
       (ill || tab_ill ~sparse:cl.sparse obf) (cl.name ^ "::Model(const_PM&)") (("copy", obf) :: tabs) (Some d)
   | "conv" ->
-    mk k None None false (cl.name ^ "::Model(const_M&)") [("copy", [])] None
+    mk ~rsrc:RConv k None None false (cl.name ^ "::Model(const_M&)") [("copy", [])] None
   | "setd" ->
     let d = next_xq c in
     let (mo, po) = lift (SetDiscount d) in
@@ -159,12 +169,12 @@ let read_op cl (c : cursor) (st_m : model option) (st_o : int) : pop_info =
     let f = next_list c next_q in
     let r = if have then reshape3 s a s f else [] in
     let (mo, po) = lift (SetR3 r) in
-    mk k mo po false (cl.base ^ "::setRewardFunction(R)") [] None
+    mk ~rsrc:(RTab (r, None)) k mo po false (cl.base ^ "::setRewardFunction(R)") [] None
   | "setrm" ->
     let f = next_list c next_q in
     let r = if have then reshape2 s a f else [] in
     let (mo, po) = lift (SetRM r) in
-    mk k mo po false (cl.base ^ "::setRewardFunction(Matrix2D)") [] None
+    mk ~rsrc:(RMat r) k mo po false (cl.base ^ "::setRewardFunction(Matrix2D)") [] None
   | "seto3" ->
     let t = sh3 s a st_o (flat_x ()) in
     mk k None (Some (PSetO3 t)) (tab_ill ~sparse:cl.sparse t) (cl.name ^ "::setObservationFunction(O)") [("t", t)] None
@@ -184,13 +194,55 @@ let tab3_eq (a : xq list list list) (b : xq list list list) =
       List.length x = List.length y && List.for_all2 (fun r1 r2 ->
           List.length r1 = List.length r2 && List.for_all2 xq_eq r1 r2) x y) a b
 
-let mat_cmp ~exact (a : q list list) (b : q list list) =
+(* sparse classes store 0 for a reward within 1e-6 of 0: when the exact value is within 1e-9 of that
+   threshold the double computation may legitimately fall on the other side *)
+let near_eps v = q_lt (q_abs (q_sub (q_abs v) eps)) tiny
+let mat_cmp ?(sparse = false) ~exact (a : q list list) (b : q list list) =
   List.length a = List.length b && List.for_all2 (fun r1 r2 ->
       List.length r1 = List.length r2 &&
-      List.for_all2 (fun x y -> if exact then q_eq x y else q_close ~atol:(q_of_ints 1 1000000000000) x y) r1 r2) a b
+      List.for_all2 (fun x y ->
+          (if exact then q_eq x y else q_close ~atol:(q_of_ints 1 1000000000000) x y)
+          || (sparse && ((q_eq x q_zero && near_eps y) || (q_eq y q_zero && near_eps x)))) r1 r2) a b
 
 let is_ok_res = function Ok -> true | _ -> false
 let str_res = function Ok -> "Ok" | Throw -> "Throw" | NoObj -> "NoObj" | Pre -> "Pre"
+
+
+(* ---------- O: "expected rewards equal the supplied ones" ---------- *)
+let sum_abs l = List.fold_left (fun a x -> q_add a (q_abs x)) q_zero l
+let max_q l = List.fold_left q_max q_zero l
+let reward_oracle (cl : cls) (info : pop_info) (dm : model) (prev_m : model option) : unit =
+  let k = kind_of cl in
+  let fail d = oracle_fail "setter_effect" info.site d in
+  let rounding = q_of_ints 1 1000000000 in
+  let slack scale = q_mul (q_add rounding (if cl.sparse then eps else q_zero)) (q_add q_one scale) in
+  let s = int_of_nat dm.mS and a = int_of_nat dm.mA in
+  match info.rsrc with
+  | RNone ->
+    (match prev_m with
+     | Some pm -> if not (mat_cmp ~exact:true pm.mR dm.mR) then fail "stored rewards changed by a call that does not set rewards"
+     | None -> ())
+  | RZero ->
+    if not (List.for_all (List.for_all (fun x -> q_eq x q_zero)) dm.mR) then fail "rewards of a freshly constructed (s,a,discount) model are not 0"
+  | RMat r ->
+    if not (mat_cmp ~exact:true r dm.mR) then fail "stored rewards differ from the supplied reward matrix"
+  | RTab (r, src) ->
+    let mt = (match src with None -> dm.mT | Some t -> transpose01 dm.mS dm.mA t) in
+    let scale = max_q (List.concat_map (List.map sum_abs) r) in
+    if not (rewards_okb k (slack scale) { dm with mT = mt } r) then
+      fail "stored R(s,a) differs from sum_s1 T(s,a,s1) * r(s,a,s1) of the supplied tables"
+  | RConv ->
+    (match prev_m with
+     | Some pm ->
+       (* the source is the previous object seen through getExpectedReward(s,a,s1) = R(s,a); two copy
+          constructors in a row: row masses are within 1e-6 of 1 each *)
+       let r = List.map (fun row -> List.map (fun x -> List.init s (fun _ -> x)) row) pm.mR in
+       ignore a;
+       let scale = max_q (List.concat_map (List.map sum_abs) r) in
+       let tol = q_add (slack scale) (q_mul (q_of_ints 4 1000000) (q_add q_one scale)) in
+       if not (rewards_okb Sparse tol { dm with mT = pm.mT } r) then
+         fail "rewards not preserved by the conversion round trip"
+     | None -> ())
 
 (* ---------- the judge for op sequences ---------- *)
 let judge_seq (cl : cls) (c : cursor) (r : cursor) : bool * string =
@@ -222,7 +274,7 @@ let judge_seq (cl : cls) (c : cursor) (r : cursor) : bool * string =
            else oracle_fail "setDiscount_iff" (cl.base ^ "::setDiscount") ("accepted discount " ^ str_xq dm.mD ^ " not in (0,1]")
          end;
          (* tables: the guaranteed (kind-dependent) tolerance must always hold *)
-         let weak = if cl.pomdp then (match d.p with Some p -> valid_pmodel_kb k k p | None -> false) else valid_model_kb k dm in
+         let weak = if cl.pomdp then (match d.p with Some p -> valid_pmodel_k0b k k p | None -> false) else valid_model_k0b k dm in
          if not weak then oracle_fail "setter_validate_then_commit" info.site "accepted call left rows that are not distributions (beyond the sparse tolerance)";
          (* the property's own notion (epsS, entries >= 0): may fail only through the sparse findings *)
          let strict = if cl.pomdp then (match d.p with Some p -> valid_pmodel_kb Dense Dense p | None -> false) else valid_model_kb Dense dm in
@@ -236,6 +288,8 @@ let judge_seq (cl : cls) (c : cursor) (r : cursor) : bool * string =
              oracle_fail "sparse_rows_within_epsS" site ("stored row sum differs from 1 by more than 1e-6 after dropping small entries (call: " ^ info.site ^ ")")
            end
          end
+         ;
+         reward_oracle cl info dm !prev.m
        | "THROW" ->
          if exn <> "invalid_argument" then oracle_fail "exception_type" info.site ("threw " ^ exn);
          if d.toks <> !prev.toks then oracle_fail "setter_validate_then_commit" info.site "object changed by a call that threw";
@@ -243,8 +297,11 @@ let judge_seq (cl : cls) (c : cursor) (r : cursor) : bool * string =
          let disc_fine = (match info.disc with Some x -> disc_okb x | None -> true) in
          let tabs_fine = List.for_all (fun (ov, t) ->
              match ov with
-             | "t" | "m" -> prob_tableb t
-             | "s" -> sprob_tableb t
+             | "t" ->
+               (* sparse template setters (repaired): the row must still be a distribution after the
+                  entries within 1e-6 of 0 are dropped *)
+               prob_tableb t && ((not cl.sparse) || prob_tableb (List.map (List.map (List.map drop_small)) t))
+             | "m" | "s" -> prob_tableb t
              | _ -> false (* copy constructors: own rule, judged by C only *)) info.tables in
          let has_copy = List.exists (fun (ov, _) -> ov = "copy") info.tables in
          if disc_fine && tabs_fine && not has_copy then
@@ -288,7 +345,9 @@ let judge_seq (cl : cls) (c : cursor) (r : cursor) : bool * string =
          if not (tab3_eq mm.mT dm.mT) then disagree "transitions" info.site "stored transition tables differ";
          exact_r := !exact_r && List.for_all (List.for_all small_q) mm.mR
                     && List.for_all (List.for_all (List.for_all (function XFin q -> small_q q | _ -> false))) mm.mT;
-         if not (mat_cmp ~exact:!exact_r mm.mR dm.mR) then disagree "rewards" info.site "stored reward tables differ"
+         if not (mat_cmp ~sparse:cl.sparse ~exact:!exact_r mm.mR dm.mR) then
+           disagree "rewards" info.site (Printf.sprintf "stored reward tables differ after op %s: model [%s] impl [%s]" info.opname
+                                           (String.concat "; " (List.map str_qs mm.mR)) (String.concat "; " (List.map str_qs dm.mR)))
        | _ -> disagree "object_presence" info.site "model and implementation disagree on whether an object exists");
       (match !st_p, d.p with
        | Some mp, Some dp ->
@@ -311,18 +370,19 @@ let judge_isprob (c : cursor) (r : cursor) : bool * string =
   if tab_ill ~sparse:false t then (false, "ill_conditioned") else begin
     let site = "isProbability(" ^ ov ^ ")" in
     let m2 = List.hd t in
-    let spec = (match ov with "s2" | "s3" -> sprob_tableb t | _ -> prob_tableb t) in
+    let sparse_ov = (ov = "s2" || ov = "s3") in
+    let spec = prob_tableb t in
     (* O: the validator's verdict against the spec-side decision *)
-    if impl && not spec then oracle_fail "isProbability_iff" site "accepts a table that is not a distribution";
+    if impl && not spec then begin
+      if sparse_ov && sprob_tableb t
+      then oracle_fail "isProbability_sparse_nonneg" "isProbability(SparseMatrix2D)" "accepts a row with a negative entry"
+      else oracle_fail "isProbability_iff" site "accepts a table that is not a distribution"
+    end;
     if (not impl) && spec then oracle_fail "isProbability_iff" site "rejects a valid distribution";
-    (match ov with
-     | "s2" | "s3" ->
-       if impl && not (prob_tableb t) then oracle_fail "isProbability_sparse_nonneg" "isProbability(SparseMatrix2D)" "accepts a row with a negative entry"
-     | _ -> ());
     let model = (match ov with
         | "t1" -> isProbability1 (List.hd m2) | "t2" -> isProbability2 m2 | "t3" -> isProbability3 t
         | "m2" -> isProbabilityM2 m2 | "m3" -> isProbabilityM3 t
-        | "s2" -> isProbabilityS2 m2 | "s3" -> isProbabilityS3 t
+        | "s2" | "s3" -> isProbabilityS3f true t
         | _ -> failwith "overload") in
     if model <> impl then disagree "isProbability" site "model and implementation differ";
     (not impl, "isprob:" ^ ov)
@@ -338,32 +398,157 @@ let judge_amdp (c : cursor) (r : cursor) : bool * string =
   let s1 = next_int r in let a = next_int r in let d = next_xq r in
   let t' = reshape3 a s1 s1 (next_list r next_xq) in
   let r' = reshape2 s1 a (List.map xq_of_xnum (next_list r next_x)) in
-  let tacc = reshape3 a s1 s1 (next_list r next_q) in
-  let racc = reshape2 s1 a (next_list r next_q) in
-  (* assumption of the theorem, checked on the recomputed accumulators *)
-  List.iteri (fun ai ta -> List.iteri (fun si row ->
-      if not (acc_row_okb row (List.nth (List.nth racc si) ai)) then
-        oracle_fail "amdp_acc_ok" site "accumulated row is neither unvisited nor of mass > 1e-6") ta) tacc;
+  let cs = next_list r (fun r -> let cs = next_nat r in let ca = next_nat r in let cs1 = next_nat r in
+                         let p = next_q r in let rw = next_q r in
+                         { c_s = cs; c_a = ca; c_s1 = cs1; c_p = p; c_r = rw }) in
+  (* hypothesis of amdp_valid_tables (indices in range, mass >= 0), checked on the recomputed contributions *)
+  List.iter (fun c -> if not (contrib_okb (nat_of_int s1) (nat_of_int a) c) then
+                oracle_fail "amdp_contrib_ok" site "contribution out of range or negative") cs;
+  let near x = q_lt (q_abs (q_sub (q_abs x) eps)) (q_of_ints 1 1000000000000) in
+  if List.exists (fun c -> near c.c_p || (sparse && near c.c_r)) cs then (false, "ill_conditioned") else begin
   (* O: the derived model is a valid finite MDP with finite rewards *)
   List.iter (List.iter (fun x -> match x with XFin _ -> () | _ ->
       oracle_fail "amdp_valid" site ("reward " ^ str_xq x ^ " in the derived model (bucket no sampled belief falls in)"))) r';
   let rq = List.map (List.map (function XFin q -> q | _ -> q_zero)) r' in
   let dm = { mS = nat_of_int s1; mA = nat_of_int a; mT = t'; mR = rq; mD = d } in
   if not (valid_model_kb Dense dm) then oracle_fail "amdp_valid" site "derived model is not a valid MDP";
-  (* C: the final normalisation of the repaired code on the same accumulators *)
-  let (mt, mr) = amdp_finish true k tacc racc in
+  (* C: accumulation + final normalisation of the repaired code on the same contributions *)
+  let (tacc, _) = amdp_accumulate k (nat_of_int s1) (nat_of_int a) cs in
+  let (mt, mr) = amdp_derive true k (nat_of_int s1) (nat_of_int a) cs in
   let close x y = q_close ~atol:(q_of_ints 1 1000000000000) ~rtol:(q_of_ints 1 1000000000000) x y in
   let ok_t = List.for_all2 (fun ma ia -> List.for_all2 (fun r1 r2 -> List.for_all2 (fun x y -> match y with XFin q -> close x q | _ -> false) r1 r2) ma ia) mt t' in
-  if not ok_t then disagree "amdp_finish" site "normalised transition rows differ";
+  if not ok_t then disagree "amdp_derive" site "normalised transition rows differ";
   let ok_r = List.for_all2 (fun r1 r2 -> List.for_all2 (fun x y -> match x, y with XFin p, XFin q -> close p q | _ -> false) r1 r2) mr r' in
-  if not ok_r then disagree "amdp_finish" site "normalised rewards differ";
+  if not ok_r then disagree "amdp_derive" site "normalised rewards differ";
   let unvisited = List.exists (List.exists (List.for_all (fun x -> q_eq x q_zero))) tacc in
-  (unvisited, "amdp:" ^ v)
+  (unvisited, "amdp:" ^ v) end
+
+
+(* ---------- CooperativeModel / DDNGraph::push ---------- *)
+let judge_coop (c : cursor) (r : cursor) : bool * string =
+  let sS = next_nats c in let sA = next_nats c in
+  let npush = next_int c in
+  let g = ref { cg_S = sS; cg_A = sA; cg_parents = [] } in
+  let rejected_push = ref 0 in
+  for _i = 1 to npush do
+    let agents = next_nats c in
+    let feats = next_list c next_nats in
+    let ps = { cp_agents = agents; cp_features = feats } in
+    let impl = next r in let cnt = next_int r in
+    let before = List.length (!g).cg_parents in
+    let full = before = List.length sS in
+    let site = "DDNGraph::push" in
+    (* O: spec-side decision (SpecCoop.cps_validb), independent of the code's check order *)
+    let okspec = cps_validb sS sA ps in
+    (match impl with
+     | "POK" ->
+       if full then oracle_fail "push_validate_then_commit" site "accepted a node on a complete graph";
+       if not okspec then oracle_fail "push_validate_then_commit" site "accepted a malformed parent set";
+       if cnt <> before + 1 then oracle_fail "push_validate_then_commit" site "accepted node not appended"
+     | "PRT" ->
+       if not full then oracle_fail "push_validate_then_commit" site "runtime_error on an incomplete graph";
+       if cnt <> before then oracle_fail "push_validate_then_commit" site "graph changed by a push that threw"
+     | "PINV" ->
+       if full then oracle_fail "push_validate_then_commit" site "invalid_argument instead of runtime_error on a complete graph";
+       if okspec then oracle_fail "push_validate_then_commit" site "rejected a valid parent set";
+       if cnt <> before then oracle_fail "push_validate_then_commit" site "graph changed by a push that threw"
+     | s -> failwith ("unknown push status " ^ s));
+    (* C *)
+    let (g', res) = cpush !g ps in
+    let mres = (match res with POk -> "POK" | PRuntimeError -> "PRT" | PInvalidArgument -> "PINV") in
+    if mres <> impl then disagree "cpush" site ("model " ^ mres ^ " impl " ^ impl);
+    if impl <> "POK" then incr rejected_push;
+    g := g'
+  done;
+  let read_coop_dump (r : cursor) : (string list * coop option) =
+    let start = r.pos in
+    let tag = next r in
+    if tag = "NONE" then (["NONE"], None) else begin
+      let d = next_xq r in
+      let dS = next_nats r in let dA = next_nats r in
+      let np = next_int r in
+      let pss = List.init np (fun _ -> let ag = next_nats r in let f = next_list r next_nats in { cp_agents = ag; cp_features = f }) in
+      let nt = next_int r in
+      let ts = List.init nt (fun _ -> let rows = next_int r in let cols = next_int r in
+                              let data = next_list r next_xq in
+                              { cm_rows = nat_of_int rows; cm_cols = nat_of_int cols; cm_data = reshape2 rows cols data }) in
+      let nr = next_int r in
+      let rs = List.init nr (fun _ -> let t = next_nats r in let at = next_nats r in let rows = next_nat r in let cols = next_nat r in
+                              { cb_tag = t; cb_atag = at; cb_rows = rows; cb_cols = cols }) in
+      let toks = Array.to_list (Array.sub r.toks start (r.pos - start)) in
+      (toks, Some { co_g = { cg_S = dS; cg_A = dA; cg_parents = pss }; co_T = ts; co_R = rs; co_d = d })
+    end in
+  let nops = next_int c in
+  let st : coop option ref = ref None in
+  let prev = ref ["NONE"] in
+  let acc = ref 0 and thr = ref 0 in
+  for _i = 1 to nops do
+    let k = next c in
+    let (op, site, input_ok, ill) = (match k with
+      | "cctor" ->
+        let d = next_xq c in
+        let ts = next_list c (fun c -> let rows = next_int c in let cols = next_int c in
+                               let data = next_list c next_xq in
+                               { cm_rows = nat_of_int rows; cm_cols = nat_of_int cols; cm_data = reshape2 rows cols data }) in
+        let rs = next_list c (fun c -> let t = next_nats c in let at = next_nats c in let rows = next_nat c in let cols = next_nat c in
+                               { cb_tag = t; cb_atag = at; cb_rows = rows; cb_cols = cols }) in
+        let co = { co_g = !g; co_T = ts; co_R = rs; co_d = d } in
+        (CoCtor co, "CooperativeModel::CooperativeModel", valid_coopb co, List.exists (fun m -> List.exists row_ill m.cm_data) ts)
+      | "csetd" -> let d = next_xq c in (CoSetDiscount d, "CooperativeModel::setDiscount", disc_okb d, false)
+      | k -> failwith ("unknown coop op " ^ k)) in
+    let status = next r in
+    let exn = if status = "THROW" then next r else "" in
+    if ill then failwith "ill-conditioned coop case (generator emits dyadic rows only)";
+    let (toks, dump) = read_coop_dump r in
+    (* O *)
+    (match status with
+     | "OK" ->
+       let dc = (match dump with Some x -> x | None -> oracle_fail "coop_validate_then_commit" site "accepted call left no object") in
+       if not (disc_okb dc.co_d) then oracle_fail "ctor_validates_discount" site ("stored discount " ^ str_xq dc.co_d ^ " not in (0,1]");
+       if not (valid_coopb dc) then oracle_fail "coop_validate_then_commit" site "accepted call left an invalid factored model";
+       if not input_ok then oracle_fail "coop_validate_then_commit" site "an invalid input was accepted"
+     | "THROW" ->
+       if exn <> "invalid_argument" then oracle_fail "exception_type" site ("threw " ^ exn);
+       if toks <> !prev then oracle_fail "coop_validate_then_commit" site "object changed by a call that threw";
+       if input_ok then oracle_fail "coop_validate_then_commit" site "a valid input was rejected"
+     | "NOOBJ" -> if toks <> ["NONE"] then oracle_fail "coop_validate_then_commit" site "object appeared"
+     | s -> failwith ("unknown status " ^ s));
+    (* C *)
+    let (st', res) = coop_step true !st op in
+    st := st';
+    if res = Pre then failwith "coop case violates a precondition (generator bug)";
+    let impl_res = (match status with "OK" -> "Ok" | "THROW" -> "Throw" | _ -> "NoObj") in
+    if str_res res <> impl_res then disagree "accept_reject" site ("model " ^ str_res res ^ " impl " ^ impl_res);
+    (match !st, dump with
+     | None, None -> ()
+     | Some m, Some dc ->
+       let nats_eq a b = List.map int_of_nat a = List.map int_of_nat b in
+       if not (xq_eq m.co_d dc.co_d) then disagree "discount" site "stored discount differs";
+       if not (nats_eq m.co_g.cg_S dc.co_g.cg_S && nats_eq m.co_g.cg_A dc.co_g.cg_A) then disagree "spaces" site "S/A differ";
+       if List.length m.co_g.cg_parents <> List.length dc.co_g.cg_parents
+          || not (List.for_all2 (fun a b -> nats_eq a.cp_agents b.cp_agents && List.length a.cp_features = List.length b.cp_features
+                                            && List.for_all2 nats_eq a.cp_features b.cp_features) m.co_g.cg_parents dc.co_g.cg_parents)
+       then disagree "graph" site "stored parent sets differ";
+       if List.length m.co_T <> List.length dc.co_T
+          || not (List.for_all2 (fun a b -> int_of_nat a.cm_rows = int_of_nat b.cm_rows && int_of_nat a.cm_cols = int_of_nat b.cm_cols
+                                            && List.length a.cm_data = List.length b.cm_data
+                                            && List.for_all2 (fun r1 r2 -> List.length r1 = List.length r2 && List.for_all2 xq_eq r1 r2) a.cm_data b.cm_data) m.co_T dc.co_T)
+       then disagree "transitions" site "stored transition matrices differ";
+       if List.length m.co_R <> List.length dc.co_R
+          || not (List.for_all2 (fun a b -> nats_eq a.cb_tag b.cb_tag && nats_eq a.cb_atag b.cb_atag
+                                            && int_of_nat a.cb_rows = int_of_nat b.cb_rows && int_of_nat a.cb_cols = int_of_nat b.cb_cols) m.co_R dc.co_R)
+       then disagree "rewards" site "stored reward bases differ"
+     | _ -> disagree "object_presence" site "model and implementation disagree on whether an object exists");
+    if is_ok_res res then incr acc else if res = Throw then incr thr;
+    prev := toks
+  done;
+  ((!acc > 0 && !thr > 0) || (!rejected_push > 0 && !acc > 0), "coop")
 
 let judge _id (c : cursor) (r : cursor) : bool * string =
   match next c with
   | "isprob" -> judge_isprob c r
   | "amdp" -> judge_amdp c r
+  | "coop" -> judge_coop c r
   | k -> judge_seq (cls_of k) c r
 
 let () = main_loop judge
